@@ -66,7 +66,8 @@ def gen_sign_step(rng, sid, knames, full_options=False):
             st['data'] = rng.choice([b'x', b'x\n', b'a\r\nb', b'a\nb', b'hello world', b'']).hex()
     if kind in ('text', 'cleartext'):
         st['text'] = rng.choice(['', 'x', 'x\n', 'line one\nline two\n', 'a\r\nb\r\n', '- dash\n-- more', 'From me\nto you',
-                                 'ünï\ncödé ☃', 'tab\there', 'no newline at end'])
+                                 'ünï\ncödé ☃', 'tab\there', 'no newline at end', 'trailing \r\nblanks\t \r\nover crlf\r\n',
+                                 'mixed \nendings\t\r\nwith blanks \t\n', 'blank at end of text  '])
     if kind == 'msg':
         st['nsigners'] = rng.choice([1, 1, 2, 3])
         st['compression'] = rng.choice([0, 1, 2, 3])
